@@ -54,6 +54,7 @@ def gen_case(rng):
     nsites = rng.randint(1, 3)
     sites = rng.sample(SITES, nsites)
     next_id = [1000, 5000]
+    used_t = set()
     sets = []
     for k in range(2):
         files = []
@@ -70,6 +71,17 @@ def gen_case(rng):
             pts = []
             for _ in range(npts):
                 tm = rng.choice([lo, hi, rng.randint(lo, hi), rng.randint(lo, hi)])
+                if k == 0:
+                    # primary times are globally distinct: then results of *different* primary files never
+                    # span the same time range (known finding output-name-collision stays confined to
+                    # bundle=None, where two results of one primary file can)
+                    for _try in range(20):
+                        if tm not in used_t:
+                            break
+                        tm = rng.randint(lo, hi)
+                    if tm in used_t:
+                        tm = next(x for x in range(lo, hi + 1) if x not in used_t)
+                    used_t.add(tm)
                 site = rng.randrange(nsites)
                 j = rng.choice(JITTER)
                 pts.append({"id": next_id[k], "t": tm,
@@ -98,7 +110,27 @@ def gen_case(rng):
             "start_us": start_us, "end_us": end_us}
 
 
-def gen_config(rng, case, force=None):
+def result_spans(case, excl=None):
+    """bundle=None: expected results (one per file pair with collocations) grouped by the time span
+    (min, max primary time, µs since 1970) that names their output file"""
+    groups = {}
+    for i, fp in enumerate(case["sets"][0]):
+        for j, fs in enumerate(case["sets"][1]):
+            if excl is not None and ((excl[0] == 0 and excl[1] == i) or (excl[0] == 1 and excl[1] == j)):
+                continue
+            pr = file_pair_pairs(case, fp, fs)
+            if pr:
+                ids = {a for a, _ in pr}
+                ts = [case["origin_us"] + pt["t"] * 1000 for pt in fp["pts"] if pt["id"] in ids]
+                groups.setdefault((min(ts), max(ts)), []).append(sorted(pr))
+    return groups
+
+
+def would_collide(case):
+    return any(len(v) > 1 for v in result_spans(case).values())
+
+
+def gen_config(rng, case, force=None, allow_collision=False):
     cfg = {"procs": rng.choice([1, 2, 2, 3, 4]), "bundle": rng.choice([None, "primary", "daily"]),
            "output": "fileset" if rng.random() < 0.25 else "memory",
            "skip": False, "broken": None, "put_delay": rng.choice([0, 0, 0.002])}
@@ -109,6 +141,9 @@ def gen_config(rng, case, force=None):
         cfg["skip"] = rng.random() < 0.8
     if force:
         cfg.update(force)
+    if cfg["output"] == "fileset" and cfg["bundle"] is None and not allow_collision and would_collide(case):
+        # known finding output-name-collision: kept out of the ordinary stream (see collision_stream)
+        cfg["bundle"] = rng.choice(["primary", "daily"])
     return cfg
 
 
@@ -299,7 +334,7 @@ def check_run(ck, case, cfg, scratch, use_model=True):
             any((cfg["broken"][0] == 0 and p == cfg["broken"][1]) or (cfg["broken"][0] == 1 and cfg["broken"][1] in ss)
                 for p, ss in real_matches)
         # ---- totals
-        got, crashed_marker, names = [], 0, []
+        got, crashed_marker, names, contents = [], 0, [], {}
         if r["error"] is None:
             if cfg["output"] == "memory":
                 for item in r["results"]:
@@ -317,6 +352,7 @@ def check_run(ck, case, cfg, scratch, use_model=True):
                 for f in out.find(start - dt.timedelta(days=3), end + dt.timedelta(days=3), no_files_error=False):
                     ds = out.read(f)
                     got += ds_pairs(ds)
+                    contents[((f.times[0] - EPOCH) // US, (f.times[1] - EPOCH) // US)] = sorted(ds_pairs(ds))
                     # named by the time span of the collocations it holds
                     tp = ds["s0/time"].values
                     lo = EPOCH + int(tp.min().astype("M8[us]").astype("int64")) * US
@@ -352,11 +388,19 @@ def check_run(ck, case, cfg, scratch, use_model=True):
         elif got != want:
             missing, extra = multiset_diff(want, got), multiset_diff(got, want)
             sig = "other"
-            if cfg["output"] == "fileset" and len(set(names)) < len(names) and not extra:
-                sig = "output-name-collision"
+            dup = sorted({os.path.basename(n) for n in names if names.count(n) > 1})
+            if cfg["output"] == "fileset" and cfg["bundle"] is None and dup and not extra:
+                # known finding: assigned only when >= 2 yielded results carry the identical file name and
+                # the loss is exactly the overwritten results (every file = one of the results named like
+                # it, singly-named results intact)
+                groups = result_spans(case, excl if cfg["skip"] else None)
+                if set(groups) == set(contents) and any(len(v) > 1 for v in groups.values()) and \
+                        all(contents[k] in v for k, v in groups.items()):
+                    sig = "output-name-collision"
+                    full = dict(full, overwritten_names=dup)
             ck.violation(sig, f"processes={cfg['procs']} bundle={cfg['bundle']} output={cfg['output']} skip={cfg['skip']} broken={cfg['broken']}: "
                               f"{len(got)} collocations reported, {len(want)} exist; missing {missing[:6]} extra {extra[:6]}"
-                              + (f"; {len(names) - len(set(names))} output file(s) overwritten" if sig != "other" else ""), full)
+                              + (f"; output files written more than once: {dup}" if sig != "other" else ""), full)
         if cfg["output"] == "fileset" and r["error"] is None and len(set(names)) < len(names) and got == want:
             ck.count("name-collision-harmless")
         # ---- correspondence with the model
@@ -570,6 +614,13 @@ def explore(ck, n_pairs, runs_per_pair, scratch, use_model=True):
         for k in range(runs_per_pair):
             cfg = gen_config(rng, case)
             check_run(ck, case, cfg, scratch, use_model)
+        # separate low-rate stream for the known finding output-name-collision (thorough tier only;
+        # the quick tier has the corpus witness)
+        if ck.tier == "thorough" and rng.random() < 0.08 and would_collide(case):
+            cfg = gen_config(rng, case, force={"output": "fileset", "bundle": None, "broken": None, "skip": False},
+                             allow_collision=True)
+            ck.count("collision-stream")
+            check_run(ck, case, cfg, scratch, use_model)
 
 
 def main():
@@ -605,7 +656,15 @@ def run_corpus_case(ck, c, scratch, use_model=True):
     cfgs = c.get("cfgs") or [c["cfg"]]
     for cfg in cfgs:
         cfg = dict({"procs": 1, "bundle": None, "output": "memory", "skip": False, "broken": None, "put_delay": 0}, **cfg)
+        before = len(ck.violations)
         check_run(ck, case, cfg, scratch, use_model)
+        exp = cfg.get("expect")
+        if exp is not None:
+            # a corpus witness of a known finding: it must be classified exactly as recorded
+            # (nothing reported = the defect was repaired, fine)
+            for v in ck.violations[before:]:
+                if v["signature"] != exp:
+                    v["what"] = f"corpus witness expected signature {exp}: " + v["what"]
 
 
 def replay(path):
